@@ -34,7 +34,9 @@ def run(run):
         run.count_body(lc.body)
         guard_placement(run, f, lc)
         guard_records_once(run, f)
-        counters(run, f)
+        by = counters(run, f)
+        if by is not None:
+            accessor_laws(run, f, by, f.body(MC + "::record_message"))
         snapshot_agrees(run, f)
         survives(run, f)
 
@@ -146,6 +148,25 @@ def collector_field_ops(f):
         a0 = strip_refs(tr.norm(tr.call_args(blk.idx)[0])) if blk.term["args"] else None
         if a0 and a0[0] == "field" and strip_refs(a0[2]) == ("param", 1) and b.arg_count >= 1 and f.ty(b.locals[1]["ty"]).peel_refs().is_adt(MC):
             out.append((names[a0[1]], fn.get("name"), b, blk))
+        elif a0 and a0[0] == "field" and b.arg_count >= 1 and f.ty(b.locals[1]["ty"]).peel_refs().is_adt(MC):
+            # an atomic inside a private struct that groups some of the collector's fields (`self.latency.total_nanos`)
+            idx, t = [], a0
+            while t[0] == "field":
+                idx.append(t[1])
+                t = strip_refs(t[2])
+            if t == ("param", 1):
+                path, adt = [], MC
+                for i in reversed(idx):
+                    a = f.adts.get(adt)
+                    if not a or i >= len(a["variants"][0]["fields"]):
+                        path = None
+                        break
+                    fl = a["variants"][0]["fields"][i]
+                    path.append(fl["name"])
+                    ty = f.ty(fl["ty"])
+                    adt = ty.defn if ty.k == "adt" else None
+                if path:
+                    out.append((".".join(path), fn.get("name"), b, blk))
     return out
 
 
@@ -156,6 +177,13 @@ def counters(run, f):
         if m != "load":
             by.setdefault(name, []).append((m, b.defn.split("::")[-1], b, blk))
     want = {"message_count": ("fetch_add", "record_message"), "max_processing_nanos": ("fetch_max", "record_message"), "total_processing_nanos": ("fetch_update", "record_message")}
+    # the three counters by role when they were regrouped into private sub-structs: the one atomic of a grouping struct
+    # that record_message updates with fetch_max is the maximum, the one it updates with fetch_update / a CAS loop the total
+    for legacy, meths in (("max_processing_nanos", ("fetch_max",)), ("total_processing_nanos", ("fetch_update", "compare_exchange", "compare_exchange_weak")), ("message_count", ("fetch_add",))):
+        if legacy not in by:
+            cands = [k for k, ws in by.items() if "." in k and any(w[0] in meths and w[1] == "record_message" for w in ws)]
+            if len(cands) == 1:
+                by[legacy] = by.pop(cands[0])
     rm = f.body(MC + "::record_message")
     if not run.require(rm is not None, "O20.3", "record_message-present", "record_message not found", "found"):
         return
@@ -188,6 +216,18 @@ def counters(run, f):
             for st in bk.stmts:
                 if st["k"] == "assign" and st["rv"].get("agg") == "adt" and st["rv"].get("adt") == MC:
                     inits += 1
+                    for fld, op in zip(st["rv"]["fields"], st["rv"]["ops"]):
+                        if fld in ("message_count", "total_processing_nanos", "max_processing_nanos"):
+                            continue
+                        # a private struct grouping counters: every atomic in it starts at 0 as well
+                        v = strip_wrappers(btr.norm(btr.operand(op)))
+                        if v[0] == "agg" and v[1][0] == "adt" and v[1][1] in f.adts:
+                            from sendpaths import subterms
+                            for x in subterms(v):
+                                x = strip_wrappers(x)
+                                if x[0] == "call" and x[2].startswith("std::sync::atomic::Atomic") and x[2].endswith("::new"):
+                                    z = strip_wrappers(btr.norm(btr.call_args(x[1])[0])) == ("int", 0)
+                                    run.require(z, "O20.3", "starts-at-zero:%s" % fld, "a new collector starts with a non-zero atomic inside %s (%s)" % (fld, show(v)), "%s starts at 0" % fld, loc=f.span(st["span"]).loc)
                     for fld in ("message_count", "total_processing_nanos", "max_processing_nanos"):
                         if fld not in st["rv"]["fields"]:
                             continue
@@ -238,6 +278,58 @@ def counters(run, f):
                     "recorded value = duration.as_nanos() (saturated), the total duration")
         run.require(same and sat and from_param, "O20.3", "same-duration-everywhere", "max and total are not updated with the same value derived from the recorded duration (max gets %s)" % show(vmax),
                     "total += nanos (saturating) and max = max(max, nanos) with nanos derived from the duration argument")
+    return by
+
+
+def _unref(t):
+    if isinstance(t, tuple):
+        if t and t[0] in ("ref", "deref") and len(t) == 2:
+            return _unref(t[1])
+        return tuple(_unref(x) for x in t)
+    return t
+
+
+def accessor_laws(run, f, by, rm):
+    """O20.6: what the accessors return, stated absolutely (the sibling comparison O20.4 cannot see a change made to both
+    siblings, or to a helper they share): message_count() is the counter record_message increments, max_processing_time()
+    is from_nanos of the atomic it raises with fetch_max, avg_processing_time() is from_nanos(total / count) exactly when
+    count != 0 and Duration::ZERO otherwise - on the atomics identified by what record_message does to them."""
+    import pathsem
+    tr = tracer_of(rm)
+    recv = {}
+    for role in ("message_count", "max_processing_nanos", "total_processing_nanos"):
+        ws = by.get(role, [])
+        if len(ws) == 1:
+            recv[role] = _unref(strip_refs(tr.norm(tr.call_args(ws[0][3].idx)[0])))
+    if not run.require(len(recv) == 3, "O20.6", "counter-roles", "cannot identify the three counters by what record_message does to them (%s)" % sorted(recv), "count / total / max identified"):
+        return
+    C, T, M = recv["message_count"], recv["total_processing_nanos"], recv["max_processing_nanos"]
+
+    def ld(x):
+        return lambda t: isinstance(t, tuple) and t[0] == "callv" and t[1].startswith("std::sync::atomic::Atomic") and t[1].endswith("::load") and t[2] and _unref(t[2][0]) == x
+
+    def from_nanos(pred):
+        return lambda t: isinstance(t, tuple) and t[0] == "callv" and t[1].endswith("Duration::from_nanos") and len(t[2]) == 1 and pred(t[2][0])
+    laws = {
+        "message_count": lambda den: len(den) == 1 and not den[0][0] and ld(C)(den[0][1]),
+        "max_processing_time": lambda den: len(den) == 1 and not den[0][0] and from_nanos(ld(M))(den[0][1]),
+        "avg_processing_time": lambda den: len(den) == 2 and all(len(c) == 1 for c, _ in den) and
+            {p for c, _ in den for _, p in c} == {True, False} and
+            all(k[0] == "nz" and ld(C)(k[1]) for c, _ in den for k, _ in c) and
+            all((from_nanos(lambda t: isinstance(t, tuple) and t[0] == "binop" and t[1] == "Div" and ld(T)(t[2]) and ld(C)(t[3]))(v) if list(c)[0][1]
+                 else v == ("const", "std::time::Duration::ZERO") or (isinstance(v, tuple) and v[0] == "const" and str(v[1]).endswith("Duration::ZERO"))) for c, v in den),
+    }
+    for nm, law in laws.items():
+        ab = f.body(MC + "::" + nm)
+        if not run.require(ab is not None, "O20.6", "accessor-present:%s" % nm, "MetricsCollector::%s not found" % nm, "found"):
+            continue
+        try:
+            den = sorted(pathsem.denotation(f, ab), key=str)
+        except pathsem.TooComplex as e:
+            run.fail("O20.6", "accessor-law:%s" % nm, "%s() is not a loop-free computation (%s)" % (nm, e))
+            continue
+        run.require(bool(law(den)), "O20.6", "accessor-law:%s" % nm, "%s() returns { %s }, not what the counters mean (count = number of records, max = from_nanos(max), avg = from_nanos(total / count) iff count != 0, else ZERO)" % (nm, pathsem.show(frozenset(den))[:300]),
+                    "%s() = %s" % (nm, pathsem.show(frozenset(den))[:160]))
 
 
 def _cas_loop(run, f, rm, cfg, tr, blk, rets):
